@@ -108,7 +108,7 @@ struct Attrs : Profile {
     {
         return {"replace", "replace-type-change", "large-attr", "prefix-names", "dim-attr", "dimscale", "cal", "range", "datastrs",
                 "gr-attr", "vs-attr", "vsfield-attr", "vg-attr", "restart", "restart-write", "dim-renamed-with-metadata", "dimscale-retype-refused",
-                "dimscale-retype-accepted", "dimname-prefix-family", "dimname-word-permutation-pair"};
+                "dimscale-retype-accepted", "dimname-prefix-family", "dimname-word-permutation-pair", "shared-dimension", "unnamed-dimension-in-later-session"};
     }
 
     Plan generate(Rng &rng, bool thorough, uint64_t) override
@@ -181,6 +181,7 @@ struct Attrs : Profile {
         MObj  grfile, img, vsobj, vsfield[2], vgobj;
         int32 vsref = 0, vgref = 0;
         int   uniq = 0;
+        int   fk_stage = 0, fk_sessions = 0; // the unnamed-dimension scenario (see fakedims) and the sessions since it began
         explicit S(Ctx &c) : ctx(c) {}
     };
     const std::string sdpath = "/sim/at_sd.hdf", hvpath = "/sim/at_hv.hdf";
@@ -528,7 +529,71 @@ struct Attrs : Profile {
             for (int i = 0; i < NSDS; i++)
                 if (s.sds[i].exists)
                     check_sds_meta(s, i, when);
+            check_fakedims(s, when);
         }
+    }
+
+    // Unnamed dimensions next to a dimension that two datasets share by name.  Stage 1: dataset fkA (3 x 4) and fkB (3)
+    // share "fk_shared"; the second dimension of fkA keeps its default name and gets one attribute.  Stage 2, in a later
+    // session: dataset fkC (4) with an unnamed dimension of its own, which gets an attribute and a scale.  The two unnamed
+    // dimensions are different dimensions: each keeps exactly what was set on it, in every later session.
+    void one_dim_attr(S &s, const char *ds, int dn, const char *aname, int32 want, bool want_scale, const char *when)
+    {
+        int32 ix = SDnametoindex(s.sd, ds);
+        int32 id = ix < 0 ? FAIL : SDselect(s.sd, ix);
+        int32 dim = id == FAIL ? FAIL : SDgetdimid(id, dn), size = 0, nt = 0, na = 0;
+        char  nm[256] = "";
+        if (dim == FAIL || SDdiminfo(dim, nm, &size, &nt, &na) == FAIL)
+            s.ctx.fail("lookup-failed", "lookup-failed:fakedim", strf("dataset %s / its dimension %d cannot be found (%s)", ds, dn, when));
+        int32 v = 0, at = 0, cnt = 0;
+        char  an[256] = "";
+        s.ctx.st.checks++;
+        if (na != 1 || SDattrinfo(dim, 0, an, &at, &cnt) == FAIL || strcmp(an, aname) != 0 || cnt != 1 || SDreadattr(dim, 0, &v) == FAIL || v != want)
+            s.ctx.fail("attr-mismatch", "attr-mismatch:unnamed-dimension",
+                       strf("unnamed dimension %d of %s ('%s'): %d attributes, first '%s' = %d; set: one attribute '%s' = %d (%s)", dn, ds, nm, (int)na, an, (int)v, aname, (int)want, when));
+        if (want_scale ? (nt & 0xfff) != DFNT_INT16 : nt != 0)
+            s.ctx.fail("dim-mismatch", "dim-mismatch:unnamed-dimension-scale", strf("unnamed dimension %d of %s ('%s') reports scale type %d, %s (%s)", dn, ds, nm, (int)nt, want_scale ? "an int16 scale was set" : "none was set", when));
+        if (want_scale) {
+            int16 sc[4] = {0, 0, 0, 0};
+            if (SDgetdimscale(dim, sc) == FAIL || sc[0] != 11 || sc[3] != 44)
+                s.ctx.fail("dim-mismatch", "dim-mismatch:unnamed-dimension-scale", strf("the scale of the unnamed dimension of %s does not read back (%s)", ds, when));
+        }
+        SDendaccess(id);
+    }
+    void check_fakedims(S &s, const char *when)
+    {
+        if (s.fk_stage >= 1)
+            one_dim_attr(s, "fkA", 1, "fkA_attr", 1234, false, when);
+        if (s.fk_stage >= 2)
+            one_dim_attr(s, "fkC", 0, "fkC_attr", 5678, true, when);
+    }
+    void fakedims(S &s)
+    {
+        Ctx &ctx = s.ctx;
+        open_sd(s);
+        if (s.fk_stage == 0) {
+            int32 da[2] = {3, 4}, db[1] = {3};
+            int32 a = SDcreate(s.sd, "fkA", DFNT_INT16, 2, da), b = SDcreate(s.sd, "fkB", DFNT_INT16, 1, db);
+            int32 v = 1234;
+            if (a == FAIL || b == FAIL || SDsetdimname(SDgetdimid(a, 0), "fk_shared") == FAIL || SDsetdimname(SDgetdimid(b, 0), "fk_shared") == FAIL ||
+                SDsetattr(SDgetdimid(a, 1), "fkA_attr", DFNT_INT32, 1, &v) == FAIL || SDendaccess(a) == FAIL || SDendaccess(b) == FAIL)
+                ctx.fail("meta-refused", "meta-refused:fakedims", strf("setting up the shared/unnamed dimensions failed: %s", herr().c_str()));
+            s.fk_stage    = 1;
+            s.fk_sessions = 0;
+            ctx.probe("shared-dimension");
+        }
+        else if (s.fk_stage == 1 && s.fk_sessions > 0) {
+            int32 dc[1] = {4};
+            int32 c = SDcreate(s.sd, "fkC", DFNT_INT16, 1, dc);
+            int32 v = 5678;
+            int16 sc[4] = {11, 22, 33, 44};
+            if (c == FAIL || SDsetattr(SDgetdimid(c, 0), "fkC_attr", DFNT_INT32, 1, &v) == FAIL || SDsetdimscale(SDgetdimid(c, 0), 4, DFNT_INT16, sc) == FAIL ||
+                SDendaccess(c) == FAIL)
+                ctx.fail("meta-refused", "meta-refused:fakedims", strf("creating the second unnamed dimension failed: %s", herr().c_str()));
+            s.fk_stage = 2;
+            ctx.probe("unnamed-dimension-in-later-session");
+        }
+        check_fakedims(s, "right after the unnamed-dimension step");
     }
 
     // A name for a dimension that no other dimension has.  Half of the names come from a family in which every name is
@@ -799,6 +864,8 @@ struct Attrs : Profile {
             }
             else if (k == "other") {
                 // further objects in between: another dataset / vdata that nothing else refers to
+                if (!sd_ro && modn(o.arg(0), 2) == 0)
+                    fakedims(s);
                 if (!sd_ro) {
                     open_sd(s);
                     int32 dm[1] = {2};
@@ -815,6 +882,7 @@ struct Attrs : Profile {
                 }
             }
             else if (k == "restart") {
+                s.fk_sessions++;
                 close_all(s);
                 // verify from disk read-only, then continue in read or write mode
                 s.sd_write = s.hv_write = false;
